@@ -514,6 +514,11 @@ CATALOGUE['C14'] += [
   (F, 'R-PARTIALRAISE', 'camxfiles/one3d/Memmap.py', "        if self.__records % lays != 0:\n            raise ValueError('Incomplete time step: %d records of %d layers'\n                             % (self.__records, lays))\n", ""),
 ]
 
+CATALOGUE['C07'] += [
+  (F, 'R-NCATTRAPI', 'pncgen.py', "                    nfile.setncattr(k, value)", "                    setattr(nfile, k, value)"),
+  (F, 'R-NCATTRAPI', 'pncgen.py', "                    nvar.setncattr(a, value)\n", "                    setattr(nvar, a, value)\n"),
+  (F, 'R-FILLZERO', 'pncgen.py', "        if hasattr(pvar, 'missing_value'):\n            create_variable_kwds['fill_value'] = pvar.missing_value", "        if getattr(pvar, 'missing_value', None):\n            create_variable_kwds['fill_value'] = pvar.missing_value"),
+]
 CATALOGUE['C10'] += [
   (F, 'R-VARLISTWIDTH', _IO, "        keys = [k for k in _varlist2keys(varliststr) if k in self.variables]", "        keys = [k for k in varliststr.split() if k in self.variables]"),
   (F, 'R-VARLISTWIDTH', _IO, "    if len(varliststr) % 16 == 0:\n        return [varliststr[i:i + 16].strip()\n                for i in range(0, len(varliststr), 16)]\n    else:\n        return varliststr.split()", "    return varliststr.split()"),
